@@ -2361,7 +2361,9 @@ template< size_t L>
    FixedString< L>& FixedString< L>::append( const std::string& str, size_t pos,
       size_t count) noexcept
 {
-   return appendImpl( str.c_str(), pos, count);
+   if (pos >= str.length())
+      return *this;
+   return appendImpl( str.c_str(), pos, std::min( count, str.length() - pos));
 } // FixedString< L>::append
 
 
@@ -2369,7 +2371,9 @@ template< size_t L> template< size_t S>
    FixedString< L>& FixedString< L>::append( const FixedString< S>& str,
       size_t pos, size_t count) noexcept
 {
-   return appendImpl( str.c_str(), pos, count);
+   if (pos >= str.length())
+      return *this;
+   return appendImpl( str.c_str(), pos, std::min( count, str.length() - pos));
 } // FixedString< L>::append
 
 
@@ -2505,7 +2509,7 @@ template< size_t L> inline
    if (pos1 >= mLength)
       return (len2 == 0) ? 0 : 1;
 
-   const size_t  use_len = (pos1 + count1 > mLength) ? (mLength - pos1) : count1;
+   const size_t  use_len = (count1 > mLength - pos1) ? (mLength - pos1) : count1;
    const size_t  max_cmp_len = std::min( use_len, len2);
    const int     cmp_result = std::memcmp( &mString[ pos1], str, max_cmp_len);
 
@@ -2905,7 +2909,7 @@ template< size_t L>
 {
    if ((pos >= mLength) || (count == 0))
       return std::string();
-   if ((count == std::string::npos) || (pos + count >= mLength))
+   if (count > mLength - pos)
       count = mLength - pos;
    return std::string( &mString[ pos], count);
 } // FixedString< L>::substr
@@ -2916,7 +2920,7 @@ template< size_t L>
 {
    if ((pos >= mLength) || (dest == nullptr))
       return 0;
-   if (pos + count >= mLength)
+   if (count > mLength - pos)
       count = mLength - pos;
    std::memcpy( dest, &mString[ pos], count);
    return count;
@@ -2960,7 +2964,8 @@ template< size_t L>
    size_t FixedString< L>::find( const FixedString& str, size_t pos) const
       noexcept
 {
-   if ((pos + str.mLength > mLength) || (mLength == 0) || (str.mLength == 0))
+   if ((str.mLength > mLength) || (pos > mLength - str.mLength)
+       || (mLength == 0) || (str.mLength == 0))
       return std::string::npos;
    for (size_t idx = pos; idx <= (mLength - str.length()); ++idx)
    {
@@ -2975,7 +2980,8 @@ template< size_t L>
    size_t FixedString< L>::find( const std::string& str, size_t pos) const
       noexcept
 {
-   if ((pos + str.length() > mLength) || (mLength == 0) || str.empty())
+   if ((str.length() > mLength) || (pos > mLength - str.length())
+       || (mLength == 0) || str.empty())
       return std::string::npos;
    for (size_t idx = pos; idx <= (mLength - str.length()); ++idx)
    {
@@ -2990,8 +2996,8 @@ template< size_t L>
    size_t FixedString< L>::find( const char* str, size_t pos, size_t count)
       const noexcept
 {
-   if ((pos + count > mLength) || (mLength == 0) || (count == 0)
-       || (str == nullptr))
+   if ((count > mLength) || (pos > mLength - count) || (mLength == 0)
+       || (count == 0) || (str == nullptr))
       return std::string::npos;
    for (size_t idx = pos; idx <= (mLength - count); ++idx)
    {
@@ -3012,7 +3018,7 @@ template< size_t L>
 template< size_t L>
    size_t FixedString< L>::find( char ch, size_t pos) const noexcept
 {
-   if ((pos + 1 > mLength) || (mLength == 0))
+   if ((pos >= mLength) || (mLength == 0))
       return std::string::npos;
    for (size_t idx = pos; idx < mLength; ++idx)
    {
@@ -3029,7 +3035,7 @@ template< size_t L>
 {
    if ((mLength == 0) || (str.mLength == 0) || (str.mLength > mLength))
       return std::string::npos;
-   if ((pos == std::string::npos) || (pos + str.mLength > mLength))
+   if (pos > mLength - str.mLength)
       pos = mLength - str.mLength;
    // have to add 1 in the assignment because of the decrement in the condition
    for (size_t idx = pos + 1; idx-- > 0; )
@@ -3047,7 +3053,7 @@ template< size_t L>
 {
    if ((mLength == 0) || str.empty() || (str.length() > mLength))
       return std::string::npos;
-   if ((pos == std::string::npos) || (pos + str.length() > mLength))
+   if (pos > mLength - str.length())
       pos = mLength - str.length();
    // have to add 1 in the assignment because of the decrement in the condition
    for (size_t idx = pos + 1; idx-- > 0; )
@@ -3072,7 +3078,7 @@ template< size_t L>
       count = str_len;
    if (count > mLength)
       return std::string::npos;
-   if ((pos == std::string::npos) || (pos + count > mLength))
+   if (pos > mLength - count)
       pos = mLength - count;
    // have to add 1 in the assignment because of the decrement in the condition
    for (size_t idx = pos + 1; idx-- > 0; )
